@@ -2,7 +2,7 @@
 """Cross-check of the C++ reference JSON recogniser (common/refjson.h) against python's json module.
 Input files: one case per line  <hex of text> TAB <verdict>   verdict = I (invalid) | X (outside the statement) | V<canonical dump>
 Prints: 'checked <n> skipped <k> mismatches <m>' and up to 20 'MISMATCH ...' lines. Exit 0 iff m == 0."""
-import sys, json, binascii
+import sys, os, json, binascii
 
 def fail(_):
     raise ValueError('constant')
@@ -38,24 +38,44 @@ def verdict(raw):
     except (UnicodeEncodeError, OverflowError):
         return None
 
-def main():
+def one_file(fn):
     n = skipped = bad = 0
-    for fn in sys.argv[1:]:
-        with open(fn, 'rb') as f:
-            for line in f:
-                h, _, ref = line.rstrip(b'\n').partition(b'\t')
-                ref = ref.decode()
-                if ref == 'X':
-                    skipped += 1; continue
-                py = verdict(binascii.unhexlify(h))
-                if py is None:
-                    skipped += 1; continue
-                n += 1
-                if py != ref:
-                    bad += 1
-                    if bad <= 20:
-                        print('MISMATCH text=%r python=%s reference=%s' % (binascii.unhexlify(h), py, ref))
+    msgs = []
+    with open(fn, 'rb') as f:
+        for line in f:
+            h, _, ref = line.rstrip(b'\n').partition(b'\t')
+            ref = ref.decode()
+            if ref == 'X':
+                skipped += 1; continue
+            py = verdict(binascii.unhexlify(h))
+            if py is None:
+                skipped += 1; continue
+            n += 1
+            if py != ref:
+                bad += 1
+                if len(msgs) < 20:
+                    msgs.append('MISMATCH text=%r python=%s reference=%s' % (binascii.unhexlify(h), py, ref))
+    return n, skipped, bad, msgs
+
+def main():
+    files = sorted(sys.argv[1:])
+    jobs = max(1, min(8, len(files), os.cpu_count() or 1))
+    if jobs > 1:
+        # every line is judged on its own: the files are only spread over processes, the result is the same as serially
+        import multiprocessing
+        with multiprocessing.Pool(jobs) as pool:
+            results = pool.map(one_file, files, chunksize=1)
+    else:
+        results = [one_file(fn) for fn in files]
+    n = skipped = bad = 0
+    shown = 0
+    for a, b, c, msgs in results:
+        n += a; skipped += b; bad += c
+        for m in msgs:
+            if shown < 20:
+                print(m); shown += 1
     print('checked %d skipped %d mismatches %d' % (n, skipped, bad))
     sys.exit(0 if bad == 0 else 1)
 
-main()
+if __name__ == '__main__':
+    main()
